@@ -5,6 +5,7 @@ import (
 	"os"
 	"strconv"
 	"testing"
+	"time"
 
 	"pgregory.net/rapid"
 	"verifharness/vcore"
@@ -66,7 +67,8 @@ func enumerate(c Case, mk func() []Observer) *vcore.Failure {
 	var prefix []int
 	schedules := 0
 	exhaustive := false
-	for schedules < enumBound {
+	started := time.Now()
+	for schedules < enumBound && time.Since(started) < 20*time.Second { // the wall budget only ends the enumeration early (not exhaustive)
 		cc := c
 		cc.Ops = append([]Op{}, c.Ops...)
 		ep := cc.Ops[last]
